@@ -750,3 +750,70 @@ class C08Flows(Base):
         d['_state'] = {'max_flow': self.max_flow, 'used': sorted(self.used),
                        'done': {k: sorted(v) for k, v in self.done.items()}}
         return d
+
+
+class C45AbsTriggers(Base):
+    """Once an absolutely-triggered output is complete, every current and
+    future dependent instance has that prerequisite satisfied."""
+    NAME = 'c45'
+    PID = 'C45'
+
+    def __init__(self, case, phase):
+        super().__init__(case, phase)
+        st = (phase.get('carry') or {}).get('c45') or {}
+        self.done: Set[Tuple[str, str, str]] = {
+            tuple(x) for x in st.get('done', [])}   # (point, task, message)
+        # (task, point, output) atoms used absolutely in the GT
+        self.abs_atoms = set()
+        for sec in self.gt['sections']:
+            for ar in sec['arrows']:
+                for a in wfgen.atoms(ar['lhs']):
+                    if isinstance(a[2], tuple):
+                        self.abs_atoms.add((a[1], a[2][1], a[3]))
+
+    def message_of(self, name, out):
+        return self.case.get('messages', {}).get(name, {}).get(out, out)
+
+    def on_event(self, ev):
+        k = ev['k']
+        if k == 'MSG_OUT':
+            p, n = split_id(ev['id'])
+            for (t, q, o) in self.abs_atoms:
+                if t == n and q == p:
+                    outs = set(ev['outputs_after'])
+                    hit = (o in outs) or (o == 'finished' and outs & {
+                        'succeeded', 'failed'})
+                    if hit:
+                        if o == 'finished':
+                            for oo in ('succeeded', 'failed'):
+                                if oo in outs:
+                                    self.done.add((str(q), t, oo))
+                        else:
+                            self.done.add((str(q), t, self.message_of(t, o)))
+        elif k == 'POOL_ADD':
+            if self.phase.get('restart') and self.drv.bus.it == 0:
+                self.check([ev['task']], 'after-restart')
+            else:
+                self.check([ev['task']], 'at-spawn')
+
+    def after_iter(self, drv, pool_snap):
+        self.check(pool_snap, 'in-pool')
+
+    def check(self, tasks, where):
+        if not self.done:
+            return
+        for t in tasks:
+            for pt, name, out, sat, _ in t['prereqs']:
+                if (pt, name, out) in self.done:
+                    self.n['abs_prereq_checks'] += 1
+                    self.n[f'abs_checks_{where}'] += 1
+                    if not sat:
+                        self.v(f'abs-prerequisite-unsatisfied:{where}',
+                               f'{t["id"]} has prerequisite {pt}/{name}:'
+                               f'{out} unsatisfied although that output is '
+                               'complete', t)
+
+    def summary(self, drv):
+        d = dict(self.n)
+        d['_state'] = {'done': sorted(self.done)}
+        return d
